@@ -92,6 +92,30 @@ def violates(exe, ctx, trace, tag):
     return None
 
 
+def select_traces(ctx, rng):
+    """Each replay process start costs a few ms (much more on a loaded machine), so the enumerated traces are
+    sampled (seeded): quick ~400 traces, thorough ~10000.  Always included: the Coq example traces and every
+    enumerated trace of up to 2 (quick) / 3 (thorough) events."""
+    full = 2 if ctx.quick else 3
+    traces = tg.fixed()
+    for nested in (False, True):
+        pool = tg.enumerated(full + 1, nested=nested)
+        short = [t for t in pool if len(t.events) <= full]
+        longer = [t for t in pool if len(t.events) > full]
+        part = [t for t in longer if any(k.startswith("partial") for k in tg.classify(t).kinds)]
+        rest = [t for t in longer if not any(k.startswith("partial") for k in tg.classify(t).kinds)]
+        if nested:
+            quota = [(part, 25 if ctx.quick else 1000), (rest, 15 if ctx.quick else 500)]
+        else:
+            quota = [(part, 120 if ctx.quick else 3000), (rest, 40 if ctx.quick else 1000)]
+        traces += short
+        for lst, n in quota:
+            traces += rng.sample(lst, min(n, len(lst)))
+    nrand = 100 if ctx.quick else 3000
+    traces += [tg.random_trace(rng, "rand%d" % i) for i in range(nrand)]
+    return traces
+
+
 def run(ctx):
     proofs_ok = vlib.coq_prove(ctx, os.path.join(vlib.COQ, "Properties", "C20.v"), THEOREMS)
     oracle, corr = [], []
@@ -104,9 +128,7 @@ def run(ctx):
         if ctx.replay:
             traces = tg.parse_text(open(ctx.replay).read().split("\n"))
         else:
-            traces = tg.fixed() + tg.enumerated(3 if ctx.quick else 4) + tg.enumerated(3 if ctx.quick else 4, nested=True)
-            nrand = 150 if ctx.quick else 3000
-            traces += [tg.random_trace(rng, "rand%d" % i) for i in range(nrand)]
+            traces = select_traces(ctx, rng)
         refs = [tg.classify(t) for t in traces]
         results = run_all(ctx, exe, traces, ctx.seed)
         tr = ctx.path("replay.txt")
@@ -170,9 +192,10 @@ def run(ctx):
         "free count is max_pfn minus what the trace holds (trace_held, a function of the trace alone; re-allocated-over "
         "blocks are counted explicitly as held). The model is tied to the compiled replay binary by running both on the "
         "same synthetic binary traces.",
-        "traces: the traces of the Coq examples + all traces of up to 3 (quick) / 4 (thorough) aligned events over pfns 4..7 "
-        "at orders 0..2 that start with an allocation (every first/middle/last part at every sub-order; well-formed "
-        "ones and ones with nested allocations) + seeded random well-formed traces of 8..400 events with orders 0..10, "
+        "traces: the traces of the Coq examples + all traces of up to 2 (quick) / 3 (thorough) aligned events over pfns 4..7 "
+        "at orders 0..2 that start with an allocation and a seeded sample of those with one more event (every "
+        "first/middle/last part at every sub-order; well-formed ones and ones with nested allocations) + seeded "
+        "random well-formed traces of 8..400 events with orders 0..10, "
         "partial frees, unknown frees, re-allocations, 1..8 cores, several cpu ids and trace pages, with and without "
         "--classing results/classes.json; evaluations = traces run through the real binary; non-trivial = the trace "
         "contains at least one partial free; distinct = distinct such traces (event sequences)")
